@@ -32,8 +32,11 @@ def tape_to_string(tape, salt=0):
 
 
 def numeric_point(p):
-    return p is not None and isinstance(p.x, (int, float)) and isinstance(p.y, (int, float)) \
-        and math.isfinite(p.x) and math.isfinite(p.y)
+    try:
+        return p is not None and isinstance(p.x, (int, float)) and isinstance(p.y, (int, float)) \
+            and math.isfinite(p.x) and math.isfinite(p.y)
+    except OverflowError:          # an int beyond the float range is not a coordinate one can compute with
+        return False
 
 
 def soundness(p):
@@ -247,12 +250,20 @@ def long_inputs(tier):
 EXTREME = ["M1,1 a 1e-200 5 0 0 1 4,4", "M0,0 L1e999,5", "M0,0 L1e-400,5", "M 1e308 1e308 l 1e308 1e308", "M0,0 A 1e200 1e200 0 0 1 5 5",
            "M0,0 A 1e-200 1e-200 0 0 1 5 5", "M0,0 A 1e-160 1e-160 0 0 1 5 5", "M0,0 C 1e308,1e308 -1e308,-1e308 5,5", "M0,0 A 5 5 1e999 0 1 5 5",
            "M0,0 a 1e155 1e155 0 0 1 1e155 1e155", "M0,0 L-1e999,1e999 z", "M0,0 h1e999 v-1e999", "M0,0 Q 1e200,1e200 1e-200,1e-200", "M0,0 A 3 1e-170 0 0 1 5 5",
-           "M 1e-320 1e-320 L 2e-320 0", "M0,0 S 1e999 1 2 3", "M0,0 T inf 3", "M0,0 L nan nan", "M0,0 L 1e+ 5"]
+           "M 1e-320 1e-320 L 2e-320 0", "M0,0 S 1e999 1 2 3", "M0,0 T inf 3", "M0,0 L nan nan", "M0,0 L 1e+ 5",
+           # whole-number literals of 320 and 400 digits (beyond the float range without an exponent or a decimal point)
+           "M0.5,0.5 l " + "9" * 320 + " 1", "M0,0 L " + "1" + "0" * 400 + " 5 L 1,1", "M0,0 A " + "7" * 400 + " 5 0 0 1 5 5", "M0.5,0 h " + "1" * 400]
 
 
 def check_extreme(s):
     """numbers at the edge of the float range: totality as for every string; what is retained must still be finite"""
-    dis = check_string(s, "unknown", [])
+    try:
+        dis = check_string(s, "unknown", [])
+    except engine.CaseTimeout:
+        raise
+    except Exception as e:
+        # (even printing what was retained may fail when a coordinate is an int beyond the float range)
+        dis = [{"clause": "Totality", "detail": "Path(%r...) left an object on which %s is raised: %s" % (s[:40], type(e).__name__, str(e)[:80])}]
     for d in dis:
         d["extreme_magnitude"] = True
     return [d for d in dis if d["clause"] not in ("PrefixLost",)]
